@@ -36,13 +36,10 @@ EXHAUSTIVE = {"quick": "all 36 tables over PIDs {5,7} x ppid in {5,7,unlisted 3}
 CASE_TIMEOUT = 30
 SHARD = 120
 
-# model parameters: the three repairs found with this check are in /repo (6afb079 skip_self, 3959fba parent_reuse, e202d3b
-# parents_seen).  All True = the code as it is now.  C05_OLD=skip_self,... evaluates the model of the code WITHOUT a repair
-# (only useful to replay the old defects against a reverted copy:  C05_OLD=skip_self VERIF_REPO=<copy> ./vcheck C05 quick).
-FIXES = {"skip_self": True, "parents_seen": True, "parent_reuse": True,
-         "parents_nsp": False}   # proposed repair notes/fixes/C05-parents-vanished-ancestor.diff: NOT in /repo
-for _k in filter(None, os.environ.get("C05_NEW", "").split(",")):
-    FIXES[_k] = True
+# model parameters: the four repairs found with this check are in /repo (6afb079 skip_self, 3959fba parent_reuse, e202d3b
+# parents_seen, 671469c parents_nsp).  All True = the code as it is now.  C05_OLD=skip_self,... evaluates the model of the code
+# WITHOUT a repair (only useful to replay an old defect against a reverted copy:  C05_OLD=parents_nsp VERIF_REPO=<copy> ./vcheck C05 quick).
+FIXES = {"skip_self": True, "parents_seen": True, "parent_reuse": True, "parents_nsp": True}
 for _k in filter(None, os.environ.get("C05_OLD", "").split(",")):
     FIXES[_k] = False
 
@@ -613,10 +610,10 @@ MANIFEST = {
             "returns every process at most once, never the caller, and exactly the processes reachable through parent links; parent() = the "
             "process named by ppid() unless unlisted or younger (None for the root; hypothesis: lowest-PID cache fresh); parents() terminates "
             "within |table|+1 steps on ANY table, is the chain of parent() whenever that chain ends, and the chain ends on every table without "
-            "cyclic links; every call raises NoSuchProcess for a recycled caller; a parent that vanishes before its create_time() was read is no parent; parents() terminates whatever vanishes meanwhile. Refuted statements kept for the code before the three repairs "
+            "cyclic links; every call raises NoSuchProcess for a recycled caller; a parent that vanishes before its create_time() was read is no parent; parents() terminates whatever vanishes meanwhile. Refuted statements kept for the code before the repairs "
             "this check led to (caller returned by children() on a ppid cycle; parents() not terminating on a self-loop; recycled lowest PID "
-            "got None) and for the known findings (stale lowest-PID cache; parents() of a live caller raises NoSuchProcess when an ancestor vanishes "
-            "after it was appended -- with the proposed repair proved never to raise). The model is tied to the code by running both on random and "
+            "got None) (also: parents() of a live caller raised NoSuchProcess when an ancestor vanished after it was appended -- now proved to return a "
+            "list under any vanish sets, namely the chain demanded under vanishing) and for the known finding (stale lowest-PID cache). The model is tied to the code by running both on random and "
             "exhaustively enumerated tables written into a fake /proc, on multi-step histories with a warm process_iter() cache (answer demanded "
             "from the final table, objects compared by (pid, start ticks)) and with a process removed before each k-th open of its stat file; the harness oracle for descendants is proved equal to the inductive set.",
     "note": "Trusted: Coq kernel + vm_compute; hand-written model coq/C05/Model.v (tied by the correspondence run only); harness (fake /proc, "
